@@ -4,8 +4,9 @@
 //! background side has settled (worker blocked in the gate, or nothing left to dequeue, or —
 //! once no handle is left — the wrapped sink dropped).
 //!
-//! case:  Q <cap|u> <handler 0|1> <actions>
-//!   actions = comma list of  E<h> (emit on handle h) | C<h> (clone h) | D<h> (drop h) | U<h> (h dropped by a thread unwinding from a panic)
+//! case:  Q <cap|u> <ctor> <actions>      ctor: 0 = builder without handler, 1 = builder (capacity, then handler),
+//!                                        2 = builder (handler, then capacity), 3 = QueuingMetricSink::from / ::with_capacity
+//!   actions = comma list of  E<h>[e|l|u|s] (emit on handle h; payload shape: empty string / 100 kB / non-ASCII / bare number) | C<h> (clone h) | D<h> (drop h) | U<h> (h dropped by a thread unwinding from a panic)
 //!             | Rk | Re<id> | Rp (release the metric in the gate with Ok / Err(id) / panic) | S (sample counters)
 //!   handles are numbered in creation order, 0 = the original
 //! observation:  A:<per action, comma list>|DL:<delivered>|H:<handled>|X:<final>
@@ -140,19 +141,48 @@ pub struct Rig {
 
 impl Rig {
     pub fn new(cap: Option<usize>, handler: bool) -> Rig {
+        Rig::with_ctor(cap, if handler { 1 } else { 0 })
+    }
+
+    /// ctor: 0 = builder, no handler; 1 = builder, capacity then handler; 2 = builder, handler then capacity;
+    ///       3 = no handler, through QueuingMetricSink::from / ::with_capacity
+    pub fn with_ctor(cap: Option<usize>, ctor: u8) -> Rig {
+        let handler = ctor == 1 || ctor == 2;
         let gate = Gate::new();
         let sink = GatedSink { gate: gate.clone() };
-        let mut b = QueuingMetricSink::builder();
-        if let Some(c) = cap {
-            b = b.with_capacity(c);
+        if ctor == 3 {
+            let q = match cap {
+                Some(c) => QueuingMetricSink::with_capacity(sink, c),
+                None => QueuingMetricSink::from(sink),
+            };
+            return Rig {
+                gate,
+                handles: vec![Some(q)],
+                accepted: vec![],
+                cap,
+                panics_released: 0,
+                handler,
+            };
         }
-        if handler {
-            let g = gate.clone();
-            b = b.with_error_handler(move |e: io::Error| {
-                let mut st = g.m.lock().unwrap();
-                let n = st.log.len();
-                st.handled.push((payload_of(&e).unwrap_or(0), n, thread::current().id()));
-            });
+        let mut b = QueuingMetricSink::builder();
+        let g = gate.clone();
+        let h = move |e: io::Error| {
+            let mut st = g.m.lock().unwrap();
+            let n = st.log.len();
+            st.handled.push((payload_of(&e).unwrap_or(0), n, thread::current().id()));
+        };
+        if ctor == 2 {
+            b = b.with_error_handler(h);
+            if let Some(c) = cap {
+                b = b.with_capacity(c);
+            }
+        } else {
+            if let Some(c) = cap {
+                b = b.with_capacity(c);
+            }
+            if handler {
+                b = b.with_error_handler(h);
+            }
         }
         let q = b.build(sink);
         Rig {
@@ -374,9 +404,9 @@ pub fn run_case(line: &str) -> String {
     }
     assert!(t[0] == "Q");
     let cap = if t[1] == "u" { None } else { Some(t[1].parse::<usize>().unwrap()) };
-    let handler = t[2] == "1";
+    let ctor: u8 = t[2].parse().unwrap();
     let me = thread::current().id();
-    let mut rig = Rig::new(cap, handler);
+    let mut rig = Rig::with_ctor(cap, ctor);
     rig.settle();
     let mut out: Vec<String> = vec![];
     let mut attempt = 0usize;
@@ -392,8 +422,18 @@ pub fn run_case(line: &str) -> String {
         let t0 = Instant::now();
         let mut o = match op {
             "E" => {
-                let h: usize = arg.parse().unwrap();
-                let metric = format!("metric.number.{}:1|c", attempt);
+                // optional payload shape after the handle number: e = the empty string, l = 100 kB, u = non-ASCII with
+                // newlines and delimiters, s = a bare number; default = an ordinary counter line
+                let digits: String = arg.chars().take_while(|c| c.is_ascii_digit()).collect();
+                let shape = &arg[digits.len()..];
+                let h: usize = digits.parse().unwrap();
+                let metric = match shape {
+                    "e" => String::new(),
+                    "l" => format!("big.{}:{}|c", attempt, "9".repeat(100_000)),
+                    "u" => format!("m\u{e9}tric\n{}|#\u{1F642}:,@\n", attempt),
+                    "s" => format!("{}", attempt),
+                    _ => format!("metric.number.{}:1|c", attempt),
+                };
                 attempt += 1;
                 let r = rig.handles[h].as_ref().expect("emit on a dropped handle").emit(&metric);
                 match r {
